@@ -676,6 +676,8 @@ class PhaseField(_Simu):
         ):
             # bring back the history field that was current when the iteration was saved
             self.__old_psiP_e_pg = FeArray.asfearray(np.array(results["psiP"]))
+            # it is also what a Save_Iter without a new resolution has to store
+            self.__psiP_e_pg = self.__old_psiP_e_pg
 
         # damage and displacement field will change thats why we need to update the assembled matrices
         self.__updatedDamage = False
